@@ -111,3 +111,16 @@ HARNESSES.append(
          assumptions=["ec_pubkey: input is an object of exactly 12 bytes, contents arbitrary; curve lookup arbitrary; psEccX963ImportKey is a checking stub; SHA-1 reads both ends of its input"],
          undefined_ok="*", unwind=16, unwindset={"vf_bytes:/./": 60},
          cases=[dict(name="size12", defs={"VF_SIZE": 12})]))
+
+HARNESSES.append(
+    dict(name="cert_glue", src="cert_glue.c", checks=M, units=["crypto/keyformat/asn1.c"],
+         renames={"crypto/keyformat/x509.c": ["getExplicitVersion", "getSerialNum", "psX509GetDNAttributes", "getTimeValidity", "validateDateRange",
+                                             "getImplicitBitString", "getExplicitExtensions", "psX509GetSignature"]},
+         functions=["parse_single_cert", "getAsnSequence32", "getAsnSequence", "getAsnAlgorithmIdentifier"],
+         sources=["crypto/keyformat/x509.c", "crypto/keyformat/asn1.c"],
+         assumptions=["cert_glue: input is an object of exactly 40 bytes, contents arbitrary; every field parser is a checking stub (window inside the input, consumes an arbitrary part); digests check their range; heap = static-pool model"],
+         undefined_ok="*", cbmc_flags=["--object-bits", "10"],
+         unwind=12, unwindset={"vf_bytes:/./": 60, "checkAsnOidDatabase:/while \\(1\\)/": 8, "memcmp.0": 26, "getAsnOID:/./": 60,
+                               "memmove:/for \\(i = 0/": 66, "malloc:/for \\(j = /": 9, "vf_heap_slot_of:/for \\(j = /": 9},
+         cap_s=3600,
+         cases=[dict(name="size40", tier="thorough", defs={"VF_SIZE": 40})]))
